@@ -27,6 +27,7 @@
 
 
 #include <cstddef>
+#include <functional>
 #include <algorithm>
 #include <cassert>
 #include <new>
@@ -382,6 +383,19 @@ public:
     {
         invariants();
 
+        if (theCount != 0 && isElement(theData) == true)
+        {
+            // The element would be moved, or destroyed with the old
+            // storage, while it is still needed, so insert a copy of it...
+            ThisType    theTemp(*m_memoryManager, 1);
+
+            theTemp.push_back(theData);
+
+            insert(thePosition, theCount, theTemp.back());
+
+            return;
+        }
+
         const size_type     theTotalSize = size() + theCount;
 
         // Needs to be optimized
@@ -565,6 +579,18 @@ public:
         {
             shrinkToSize(theSize);
         }
+        else if (m_size < theSize && isElement(theValue) == true)
+        {
+            // The element would be destroyed with the old storage
+            // while it is still needed, so use a copy of it...
+            ThisType    theTemp(*m_memoryManager, 1);
+
+            theTemp.push_back(theValue);
+
+            resize(theSize, theTemp.back());
+
+            return;
+        }
         else if (m_size < theSize)
         {
             // Reserve memory up-front...
@@ -594,6 +620,19 @@ public:
         invariants();
 
         return m_allocation;
+    }
+
+    /**
+     * Determine if a reference refers to an element of this vector.
+     */
+    bool
+    isElement(const value_type&     theValue) const
+    {
+        const value_type* const     thePointer = &theValue;
+
+        return m_data != 0 &&
+               std::less<const value_type*>()(thePointer, m_data) == false &&
+               std::less<const value_type*>()(thePointer, m_data + m_size) == true;
     }
 
     bool
